@@ -44,6 +44,11 @@ func NewCounter(capacity uint8, freeCb func()) *Counter {
 // Incr increases the specified key visits.
 func (c *Counter) Incr(key string) {
 	c.mu.Lock()
+	if c.capacity == 0 {
+		// nothing can be tracked (and there is nothing to evict).
+		c.mu.Unlock()
+		return
+	}
 	item, ok := c.items[key]
 	if ok {
 		// update the item's freq
